@@ -413,6 +413,55 @@ class ClockSeam(object):
     return False
 
 
+# ------------------------------------------------- PSD-conversion observer
+
+class ConvertObserver(object):
+  """Observer (no fault): records the last matrix each learner hands to
+  components_from_metric, through the module-level names.  Used only as a
+  discriminator: when a fit raises NonPSDError, was the matrix it tried to
+  convert positive semi-definite up to rounding?"""
+
+  MODS = ("scml", "itml", "mmc", "sdml", "lsml", "covariance")
+
+  def __init__(self):
+    self.last = None
+    self.saved = []
+
+  def __enter__(self):
+    obs = self
+    for mn in self.MODS:
+      mod = sys.modules.get("metric_learn." + mn)
+      if mod is None or not hasattr(mod, "components_from_metric"):
+        continue
+      orig = mod.components_from_metric
+
+      def wrapped(metric, *a, _orig=orig, **k):
+        try:
+          obs.last = np.array(metric, dtype=float, copy=True)
+        except Exception:
+          obs.last = None
+        return _orig(metric, *a, **k)
+      self.saved.append((mod, orig))
+      mod.components_from_metric = wrapped
+    return self
+
+  def __exit__(self, *exc):
+    for mod, orig in self.saved:
+      mod.components_from_metric = orig
+    self.saved = []
+    return False
+
+  def psd_within_rounding(self):
+    """True / False, or None when nothing was observed."""
+    M = self.last
+    if M is None or M.ndim != 2 or M.shape[0] != M.shape[1] or not np.isfinite(M).all():
+      return None
+    if np.abs(M - M.T).max() > 1e-12 * max(1.0, np.abs(M).max()):
+      return False
+    w = np.linalg.eigvalsh((M + M.T) / 2)
+    return bool(w.min() >= -1e3 * len(w) * np.finfo(float).eps * max(np.abs(w).max(), 1e-300))
+
+
 # ------------------------------------------------------------ optimiser probe
 
 class MinimizeProbe(object):
